@@ -156,6 +156,14 @@ func (c *Ctx) HarnessError(msg string) {
 	c.mu.Unlock()
 }
 
+// HasSig reports whether a violation with this signature was already recorded (and confirmed).
+func (c *Ctx) HasSig(sig string) bool {
+	c.mu.Lock()
+	defer c.mu.Unlock()
+	_, ok := c.viol[sig]
+	return ok
+}
+
 func (c *Ctx) NumViolations() int { c.mu.Lock(); defer c.mu.Unlock(); return len(c.viol) }
 
 func loadKnown() []KnownFinding {
